@@ -12,7 +12,7 @@ import (
 
 func init() {
 	core.Register(&core.Property{
-		ID: "C01",
+		ID:   "C01",
 		Rule: "seeded generator of spec-valid frames for all 8 MTypes (data frames: all FCtrl flag combinations, FOpts as valid MAC-command streams of exact length 0..15 or raw bytes, FPort absent/0/1..255, FRMPayload 0..242-FOptsLen bytes or port-0 MAC-command lists; join-request; rejoin 0/1/2; join-accept 12/28 bytes through encrypt->marshal->unmarshal->decrypt; proprietary) plus the complete boundary grid FOptsLen x FPort-kind x payload length {0,1,2,15,16,17,241,max}; oracle: real MarshalBinary/MarshalText must succeed and real UnmarshalBinary/UnmarshalText of the output must give back every field. A shape is distinct by (MType, FOptsLen, FPort kind, payload-length class, FCtrl flag bits, raw-vs-MAC FOpts).",
 		Assumptions: []string{
 			"encoding/base64 and crypto/aes of the Go standard library are trusted",
